@@ -115,6 +115,17 @@ def main():
     shutil.copy(patch, os.path.join(dest, "patch.diff"))
     for d in demos:
         shutil.copy(d, os.path.join(dest, os.path.basename(d) + ".txt"))
+    # everything else the agent delivered (scripts, demo schemas, nested demo directories), except logs and build output
+    for root, dirs, files in os.walk(sd):
+        dirs[:] = [x for x in dirs if x not in ("gen", "out", "work", "obj")]
+        for f in files:
+            src = os.path.join(root, f)
+            rel = os.path.relpath(src, sd)
+            if rel in ("patch.diff", "README.md") or f.endswith(".log") or os.path.getsize(src) > 200000 or (root == sd and f.endswith("_test.go")):
+                continue
+            t = os.path.join(dest, "demo_files", rel + (".txt" if f.endswith(".go") else ""))
+            os.makedirs(os.path.dirname(t), exist_ok=True)
+            shutil.copy(src, t)
     if readme:
         open(os.path.join(dest, "README.agent.md"), "w").write(readme)
     m = re.search(r"(?is)(trigger|needs?|manifest)[^\n]*\n(.{0,600})", readme)
